@@ -20,6 +20,7 @@ import (
 	"errors"
 	"fmt"
 	"io"
+	"math"
 	"reflect"
 	"sort"
 	"strings"
@@ -724,6 +725,9 @@ func (s *sumInt64) Accumulate(v interface{}) (interface{}, error) {
 	iv, err := l.Int64()
 	if err != nil {
 		return s.state, err
+	}
+	if (iv > 0 && s.state > math.MaxInt64-iv) || (iv < 0 && s.state < math.MinInt64-iv) {
+		return s.state, fmt.Errorf("int64 overflow adding %d to the sum %d", iv, s.state)
 	}
 	s.state += iv
 	return s.state, nil
